@@ -828,7 +828,7 @@ var _ format.Node
 
 func TestC12(t *testing.T) {
 	c := ev.Get("C12")
-	c.Rule = "structured generation: the valid CBOR map of an entry / manifest (or the legacy JSON-in-protobuf shape) with 1-3 patches, each deleting, nulling or replacing one field (top-level, nested clock/identity/signatures fields, list elements, extra fields) by a generated value of any kind (ints incl. 2^63/2^64-1, negatives, strings incl. non-hex and invalid UTF-8, bytes, bools, floats incl. NaN/Inf, undefined, lists, maps, tags, valid and malformed tag-42 links), canonical or written key order; or an arbitrary generated value; for link-key entries also hostile link lists sealed with the readers' own shared key (patched {next, refs} with malformed / empty tag-42 links, wrong kinds, or an arbitrary value) inside an otherwise honest block. The block is stored under its true CID; every codec's DecodeRawEntry/DecodeRawJSONLog is called on it and, on success, every accessor, clock method, Verify (3 codecs), Equals, IsParent, IsValid, Copy, ToHashable, Normalize, the four comparators, re-encoding, FindHeads/FindChildren and a log built over the entry (Values, Heads, ToString, Join) — each under recover(), a panic is the violation. Then a healthy signed chain naming the block in next or refs at a generated position is loaded by entry hash or manifest and must contain every healthy entry (plus the block only if it decodes); the hostile block itself is also given to the loaders; the loaders are called with and without a log id and with and without an explicit codec (LogOptions.ID, LogOptions.IO). Non-trivial = the block passes the DAG layer and is a map (decodes at the CBOR level but deviates from the schema); distinct = distinct program. Byte-level inputs: native fuzz target FuzzC12Decode (thorough tier, corpus replayed in quick)."
+	c.Rule = "structured generation: the valid CBOR map of an entry / manifest (or the legacy JSON-in-protobuf shape) with 1-3 patches, each deleting, nulling or replacing one field (top-level, nested clock/identity/signatures fields, list elements, extra fields) by a generated value of any kind (ints incl. 2^63/2^64-1, negatives, strings incl. non-hex and invalid UTF-8, bytes, bools, floats incl. NaN/Inf, undefined, lists, maps, tags, valid and malformed tag-42 links), canonical or written key order; or an arbitrary generated value; for link-key entries also hostile link lists sealed with the readers' own shared key (patched {next, refs} with malformed / empty tag-42 links, wrong kinds, or an arbitrary value) inside an otherwise honest block. The block is stored under its true CID; every codec's DecodeRawEntry/DecodeRawJSONLog is called on it and, on success, every accessor, clock method, Verify (3 codecs), Equals, IsParent, IsValid, Copy, ToHashable, Normalize, the four comparators, re-encoding, FindHeads/FindChildren and a log built over the entry (Values, Heads, ToString, Join) — each under recover(), a panic is the violation. Then a healthy signed chain naming the block in next or refs at a generated position is loaded by entry hash or manifest and must contain every healthy entry (plus the block only if it decodes); the hostile block itself is also given to the loaders; the loaders are called with and without a log id and with and without an explicit codec (LogOptions.ID, LogOptions.IO). Non-trivial = the block passes the DAG layer and is a map (decodes at the CBOR level but deviates from the schema); distinct = distinct program. Byte-level inputs: native fuzz target FuzzC12Decode (thorough tier, corpus replayed in quick). Hex-carrying fields (key, signature, clock id, identity keys) also get hex of short byte strings over the bytes keys and DER signatures start with, truncations of real ones and real ones with a byte replaced or appended; loads are given generated optional FetchOptions fields (progress channel, timeout, exclusion list / predicate) and what a progress channel reports must be usable entries."
 	c.Assumptions = []string{"a block that decodes without error counts as an entry (possibly nonsensical) and may be part of the loaded log; only undecodable blocks must be skipped", "panics on goroutines the library starts cannot be recovered in-process: the direct decode checks run first on the test goroutine, the loaders second; the driver attributes a process crash to the last case written (write-ahead file)"}
 	ev.Check(t, "C12", genC12, runC12)
 }
